@@ -420,9 +420,34 @@ def _quiet_logging():
         pass
 
 
+class CaseTimeout(Exception):
+    pass
+
+
+def _alarm(*_):
+    raise CaseTimeout("case exceeded its CPU-time budget")
+
+
 def _impl_one(case):
+    import signal
+
+    budget = float(getattr(_PLUGIN, "CASE_CPU_SECONDS", 120))
+    signal.signal(signal.SIGVTALRM, _alarm)
+    signal.setitimer(signal.ITIMER_VIRTUAL, budget)
+    try:
+        return _impl_one_inner(case)
+    except CaseTimeout:
+        return ({"out": {"exception": "CaseTimeout"}, "exception": "CaseTimeout: more than %ss of CPU" % budget},
+                "implementation did not finish within %ss of CPU time" % budget, False)
+    finally:
+        signal.setitimer(signal.ITIMER_VIRTUAL, 0)
+
+
+def _impl_one_inner(case):
     try:
         res = _PLUGIN.impl(case)
+    except CaseTimeout:
+        raise
     except BaseException as ex:  # pylint: disable=broad-except
         res = {
             "out": {"exception": type(ex).__name__},
@@ -438,6 +463,26 @@ def _impl_one(case):
     except BaseException:  # pylint: disable=broad-except
         nt = False
     return res, why, nt
+
+
+def _encode(plugin, case, res=None):
+    """Model input for a case.  Plugins whose model replays inputs recorded from
+    the real run (packets, oracle answers, set orders) define encode_with(case, res)."""
+    if hasattr(plugin, "encode_with"):
+        if res is None:
+            try:
+                res = plugin.impl(case)
+            except BaseException as ex:  # pylint: disable=broad-except
+                res = {"out": {"exception": type(ex).__name__}}
+        return plugin.encode_with(case, res)
+    return plugin.encode(case)
+
+
+def _canon_model(plugin, mo):
+    """order-insensitive parts of a model answer are normalised by the plugin"""
+    if hasattr(plugin, "canon_model") and not isinstance(mo, dict):
+        return plugin.canon_model(mo)
+    return mo
 
 
 def load_known():
@@ -543,7 +588,7 @@ def run_property(modname, tier, seed, replay=None, n_override=None):
         impl_res = pool.map(_impl_one, cases, chunksize=chunk) if cases else []
         model_out = None
         if binary is not None:
-            enc = [plugin.encode(c) for c in cases]
+            enc = [_encode(plugin, c, impl_res[i][0]) for i, c in enumerate(cases)]
             model_out = run_model(binary, enc, pool)
 
     # ---- 4. compare
@@ -563,7 +608,7 @@ def run_property(modname, tier, seed, replay=None, n_override=None):
         if why:
             oracle_fail.append((i, why))
         if model_out is not None:
-            mo = model_out[i]
+            mo = _canon_model(plugin, model_out[i])
             if canon(res.get("out")) != canon(mo):
                 mismatches.append(i)
 
@@ -646,7 +691,7 @@ def run_property(modname, tier, seed, replay=None, n_override=None):
                 r = plugin.impl(c)
             except BaseException as ex:  # pylint: disable=broad-except
                 r = {"out": {"exception": type(ex).__name__}}
-            mo = run_model(binary, [plugin.encode(c)])[0]
+            mo = _canon_model(plugin, run_model(binary, [_encode(plugin, c, r)])[0])
             return canon(r.get("out")) != canon(mo)
 
         small = shrink(cases[i], mism)
@@ -654,7 +699,7 @@ def run_property(modname, tier, seed, replay=None, n_override=None):
             r = plugin.impl(small)
         except BaseException as ex:  # pylint: disable=broad-except
             r = {"out": {"exception": type(ex).__name__}, "exception": str(ex)}
-        mo = run_model(binary, [plugin.encode(small)])[0]
+        mo = _canon_model(plugin, run_model(binary, [_encode(plugin, small, r)])[0])
         broken_tie.append(
             (
                 "broken-correspondence",
@@ -703,7 +748,7 @@ def run_property(modname, tier, seed, replay=None, n_override=None):
         for i in idx:
             if isinstance(model_out[i], dict):
                 continue
-            e = plugin.encode(cases[i])
+            e = enc[i]
             if len(sx_str(e)) > 4000:
                 continue
             pairs.append((e, model_out[i]))
